@@ -261,7 +261,7 @@ class Builder:
             f = self.fn(fctx, b)
             self.files[fctx]["fns"].append("void nfbody () { %s (); }" % f)
             stmts.append('"/c05/user"->failcmd ();')
-            ops.append("(call other u1 0 0 (tmp 1 (withcg u1 (safefp u1 0 0 (say nf) (call other %s 0 0 (call local %s 0 0 %s))))))" % (t, t, " ".join(o)))
+            ops.append("(call other u1 0 0 (say set-cg) (setreg cg u1) (tmp 1 (withcg u1 (safefp u1 0 0 (say nf) (call other %s 0 0 (call local %s 0 0 %s))))))" % (t, t, " ".join(o)))
         elif k == "inithook":
             # an object with an init() hook moves itself into the room where the living `mob` stands:
             # move_object() sets command_giver = mob and applies init() in the object
@@ -859,7 +859,7 @@ class C05(Prop):
                                  ("throw", 'throw ("t1");', "(throw t1)")):
             for outer in (False, True):
                 call = '"/c05/user"->failcmd ();'
-                o = "(call other u1 0 0 (tmp 1 (withcg u1 (safefp u1 0 0 (say nf) (call other t 0 0 %s)))))" % bops
+                o = "(call other u1 0 0 (say set-cg) (setreg cg u1) (tmp 1 (withcg u1 (safefp u1 0 0 (say nf) (call other t 0 0 %s)))))" % bops
                 B.append(fixed_case("b-notify-fail-%s%s" % (name, "-caught" if outer else ""),
                                     (CATCHSTMT % '"/c05/user"->failcmd ()') if outer else call,
                                     ("(catch %s) (saycatch)" % o) if outer else o,
